@@ -88,12 +88,17 @@ class E:
 
     def mul(self):
         lhs = self.unary()
-        while self.peek()[1] == "*" and lhs[0] == "mat":
-            self.next()
+        while (self.peek()[1] == "*" and lhs[0] in ("mat", "quat")) or (self.peek()[1] == "/" and lhs[0] == "vec"):
+            op = self.next()[1]
             rhs = self.unary()
-            if rhs[0] != "mat":
-                raise TranslateError("matrix times non-matrix")
-            lhs = ("mat", f"({lhs[1]}.mul {rhs[1]})")
+            if op == "/":
+                if rhs[0] != "num":
+                    raise TranslateError("vector divided by a non-scalar")
+                lhs = ("vec", f"({lhs[1]}.divs {rhs[1]})")
+            elif rhs[0] != lhs[0]:
+                raise TranslateError("product of unlike operands")
+            else:
+                lhs = (lhs[0], f"({lhs[1]}.mul {rhs[1]})")
         return lhs
 
     def unary(self):
@@ -103,7 +108,7 @@ class E:
             if e[0] != "bool":
                 raise TranslateError("! of a non-condition")
             return ("bool", f"!({e[1]})")
-        while self.peek()[1] == "&":
+        while self.peek()[1] in ("&", "*"):
             self.next()
         return self.postfix()
 
@@ -112,9 +117,26 @@ class E:
         while self.peek()[1] == "." and self.peek(1)[0] == "id":
             self.next()
             m = self.next()[1]
-            a = self.args()
             k = e[0]
-            if m == "cross" and k == "vec" and len(a) == 1 and a[0][0] == "vec":
+            if self.peek()[1] != "(":
+                # field access
+                if m == "translation" and k == "iso":
+                    e = ("isoT", e[1])
+                elif m == "vector" and k == "isoT":
+                    e = ("vec", f"{e[1]}.t")
+                elif m == "rotation" and k == "iso":
+                    e = ("quat", f"{e[1]}.q")
+                else:
+                    raise TranslateError(f"unsupported field .{m} of a {k}")
+                continue
+            a = self.args()
+            if m == "forward" and k == "robot" and len(a) == 1 and a[0][0] == "joints":
+                e = ("iso", f"(fwd {a[0][1]})")
+            elif m == "inverse" and k == "quat" and not a:
+                e = ("quat", f"{e[1]}.conj")
+            elif m == "scaled_axis" and k == "quat" and not a:
+                e = ("vec", f"{e[1]}.scaledAxis")
+            elif m == "cross" and k == "vec" and len(a) == 1 and a[0][0] == "vec":
                 e = ("vec", f"(V3.cross {e[1]} {a[0][1]})")
             elif m == "normalize" and k == "vec" and not a:
                 e = ("vec", f"{e[1]}.normalize")
